@@ -160,6 +160,10 @@ func (tl *store) Resolve(id did.DID, resolveMetadata *resolver.ResolveMetadata) 
 				// We're trying to resolve the latest, it should not return an older (active) version when deactivated
 				return resolver.ErrDeactivated
 			}
+			if metadata.Deactivated && deactivatedAtResolveTime(metadata, resolveMetadata) {
+				// The deactivated version is the one in force at the requested time, it should not return an older (active) version
+				return resolver.ErrDeactivated
+			}
 			if matches(metadata, resolveMetadata) {
 				mdTmp := metadata.asVDRMetadata()
 				returnMetadata = &mdTmp
@@ -351,6 +355,20 @@ func latestNonDeactivatedRequested(resolveMetadata *resolver.ResolveMetadata) bo
 		return false
 	}
 	return !resolveMetadata.AllowDeactivated
+}
+
+// deactivatedAtResolveTime checks if a deactivated version is the version that is in force at the requested resolveTime:
+// only a resolveTime is given (no hash or sourceTransaction), deactivated documents are not allowed,
+// and the deactivation happened at or before the resolveTime.
+// A resolveTime before the deactivation still resolves the version that was valid at that time.
+func deactivatedAtResolveTime(metadata documentMetadata, resolveMetadata *resolver.ResolveMetadata) bool {
+	if resolveMetadata == nil || resolveMetadata.AllowDeactivated || resolveMetadata.ResolveTime == nil {
+		return false
+	}
+	if resolveMetadata.Hash != nil || resolveMetadata.SourceTransaction != nil {
+		return false
+	}
+	return !metadata.Updated.After(*resolveMetadata.ResolveTime) && !metadata.Created.After(*resolveMetadata.ResolveTime)
 }
 
 func (tl *store) HistorySinceVersion(id did.DID, version int) ([]orm.MigrationDocument, error) {
